@@ -378,6 +378,22 @@ def _lenclass(n):
     return str(n) if n <= 2 else '3+'
 
 
+def _bag(x):
+    """order-insensitive canonical text of a normal form: equal bags = equal up to (nested) reordering of lists"""
+    if isinstance(x, tuple) and x:
+        if x[0] == 'tuple' and isinstance(x[1], list):
+            return 'T(' + ','.join(sorted(_bag(y) for y in x[1])) + ')'
+        if x[0] == 'cont' and len(x) == 3 and isinstance(x[2], dict):
+            return f'C{x[1]}{{' + ','.join(f'{k}={_bag(x[2][k])}' for k in sorted(x[2])) + '}'
+    if isinstance(x, dict):
+        parts = []
+        for k in sorted(x, key=str):
+            v = x[k]
+            parts.append(f'{k}=' + ('[' + ','.join(sorted(_bag(y) for y in v)) + ']' if isinstance(v, list) else _bag(v)))
+        return '{' + ','.join(parts) + '}'
+    return repr(plain(x))
+
+
 def cmp_list(g, e, path, inline, what, out):
     if not isinstance(g, list):
         out.append(Mis(f'{what}-not-a-list', path, _short(g), inline, g, e))
@@ -391,7 +407,10 @@ def cmp_list(g, e, path, inline, what, out):
         cmp_value(g[i], e[i], f'{path}[{i}]', inline, sub)
     if not sub:
         return
-    if sorted(repr(plain(x)) for x in g) == sorted(repr(plain(x)) for x in e):
+    bg, be = [_bag(x) for x in g], [_bag(x) for x in e]
+    if bg != be and sorted(bg) == sorted(be):
+        # a permutation of the expected elements (nested lists compared as bags, so that elements which are
+        # themselves reordered do not hide it): one root cause, the ordering at this level
         out.append(Mis(f'{what}-order/len={_lenclass(len(e))}', path,
                        f'same elements in a different order, first difference at {sub[0].path}: {sub[0].detail}',
                        inline or any(m.inline for m in sub), g, e))
@@ -438,7 +457,7 @@ def cmp_cdata(g, e, path, inline, out):
     if (g['stack'] is None) != (e['stack'] is None):
         out.append(Mis('cont-stack-presence', f'{path}.stack', f'{_short(g["stack"])} != {_short(e["stack"])}', inline))
     elif e['stack'] is not None:
-        cmp_list(g['stack'], e['stack'], f'{path}.stack', inline, 'cont-stack', out)
+        cmp_list(g['stack'], e['stack'], f'{path}.stack', inline, 'stack', out)
     if not isinstance(g['save'], dict):
         out.append(Mis('cont-save', f'{path}.save', _short(g['save']), inline))
     elif sorted(g['save']) != sorted(e['save']):
@@ -575,12 +594,24 @@ def _deser_failures(specs, cell, decoded):
     return fails
 
 
+def _through_vm_stack(exc):
+    tb = exc.__traceback__
+    while tb is not None:
+        if tb.tb_frame.f_code.co_filename.replace(os.sep, '/').endswith('pytoniq_core/tlb/vm_stack.py'):
+            return True
+        tb = tb.tb_next
+    return False
+
+
 def _all_failures(case):
     from pytoniq_core.tlb.vm_stack import VmStack
     specs = case['stack']
     fails = []
     ok, s = call(lambda: [mk_value(v) for v in specs])
     if not ok:
+        if _through_vm_stack(s):
+            # control data's stack / save list are serialised by the library while the input is built
+            return [Fail(f'serialize/raises/{exc_sig(s)}', f'(nested, at build time) raised {s!r}')]
         return [Fail(f'build/raises/{exc_sig(s)}', f'building the input values raised {s!r}')]
     held = list(s)
     snap = [norm(x) for x in s]
@@ -1036,7 +1067,7 @@ SUBCHECKS = [
         note='boundary ints, tuple length x nesting grid, slice consumption grid, every continuation kind x '
              'control-data variant, depth ladder'),
     Sub('random-stacks', check, strategy=strat_stacks, classify=classify, nontrivial=nontrivial,
-        n=(4000, 40000), shards=(16, 48)),
+        n=(3000, 40000), shards=(16, 48)),
     Sub('random-continuations', check, strategy=strat_conts, classify=classify, nontrivial=nontrivial,
-        n=(1600, 16000), shards=(16, 32)),
+        n=(1200, 16000), shards=(16, 32)),
 ]
